@@ -386,6 +386,7 @@ func (c *controlConn) reconnect() {
 		return
 	}
 
+	verifYield("ctl.reconnected", nil, 0)
 	err = c.session.refreshRing()
 	if err != nil {
 		c.session.logger.Printf("gocql: unable to refresh ring: %v\n", err)
